@@ -1,9 +1,12 @@
 use crate::core::Prop;
 
 pub mod c07;
+pub mod c08;
+pub mod c09;
+pub mod c20;
 
 pub fn all() -> Vec<&'static dyn Prop> {
-    vec![&c07::C07]
+    vec![&c07::C07, &c08::C08, &c09::C09, &c20::C20]
 }
 
 pub fn lookup(id: &str) -> Option<&'static dyn Prop> {
